@@ -137,6 +137,17 @@ def seeded_table() -> str:
     return head + "| change | what it does | reported by | verdict | note |\n|---|---|---|---|---|\n" + "\n".join(rows)
 
 
+def misses_text() -> str:
+    out = []
+    for m in sorted(glob.glob(str(ROOT / "seeded" / "*" / "meta.json"))):
+        x = json.loads(pathlib.Path(m).read_text())
+        if not (x.get("detected_by") or {}):
+            out.append(f"* **{x['name']}** - {(x.get('detected_note') or '').replace('NOT detected: ', '')}")
+    if not out:
+        return "Every recorded change is reported by some check."
+    return ("Changes that no check reports, and why they stay misses (no rule was bent to match them):\n\n" + "\n".join(out))
+
+
 def claims_table() -> str:
     rows = []
     for m in sorted(glob.glob(str(ROOT / "sa" / "props" / "c*.py"))):
@@ -215,13 +226,7 @@ real defect: a307f0ed).
 
 {seeded_table()}
 
-The three misses, and why they stay misses: C01-B relaxes a predicate so that a
-model which is *rejected* today is accepted later and crashes downstream - the
-check has no specification of which models must be rejected; C06-A adds a
-`continue` that weakens one clause of a verifier whose remaining clauses still
-look complete to the sibling comparison; C07-B changes `repr()` to `str()` in a
-canonical key, which merges `1` and `'1'` - a value-level collision that no
-structural rule here sees.
+{misses_text()}
 {END}
 """
     p = ROOT / "DESIGN.md"
